@@ -13,7 +13,7 @@ import numpy as np
 import z3
 
 from ..arrays import FArr, F2, _dt, np_dtype
-from ..core import Ctx, Inconclusive, SBool, SInt, SReal, Unsupported, explore, rebind, s_int, term
+from ..core import NumpyFallback, Ctx, Inconclusive, SBool, SInt, SReal, Unsupported, explore, rebind, s_int, term
 from ..fileshim import FS, SymFile
 from ..stack import build_fileio
 from ..stream import HdrBytes, StreamHeader, SigprocStub
@@ -68,7 +68,7 @@ def file_bytes(name):
     return z3.simplify(pos), segs
 
 
-class NPread:
+class NPread(metaclass=NumpyFallback):
     """np.fromfile(path, dtype, offset) over the byte model (trusted stub)"""
     float32, complex64 = np.float32, np.complex64
 
